@@ -2203,7 +2203,7 @@ func (r stack) traverseStackInCondition(u any, idx int, indices ...int) (slice a
 	if c, cOK := conditionTypeAliasConverter(u); cOK {
 		// End of the line :)
 		if len(indices) <= 1 {
-			slice = c
+			slice = u
 			ok = true
 			done = true
 		} else {
